@@ -736,6 +736,7 @@ func execSentinel(t *testing.T, plan any, out *Outcome) {
 	s := e.sim
 	muxRegReset(16)
 	richIdent.Store(true)
+	enableSpinSettle(s) // dead-pipe clean-up barrier (DESIGN.md 15.2): the one divergence source the self-test found here
 	wireName := func(w *muxwire) string { return muxRegName(w) }
 	muxwireName.Store(&wireName)
 	bg := sentBgName
